@@ -254,7 +254,7 @@ def search(ctx, seeds, full=False):
             check_illformed(ctx, img, fam, fails)
         if len(fails) >= 5:
             return fails
-    rounds = (2 if full else 1) if ctx.quick else (3 if full else 2)
+    rounds = (2 if full else 1) if ctx.quick else (6 if full else 4)
     for _ in range(rounds):
         imgs = c07_images(ctx, rng, for_search=True)
         first = set()
